@@ -15,6 +15,7 @@ var Registry = map[string]func(*Ctx) int{
 	"C09": C09,
 	"C10": C10,
 	"C16": C16,
+	"C17": C17,
 	"C18": C18,
 	"C19": C19,
 }
